@@ -241,14 +241,17 @@ func driveSys(cfg *hx.RunCfg) error {
 			got, err := u.do(rg.req, 30*time.Second)
 			if err != nil {
 				// no answer at all: once more on a fresh connection, reported when it fails again
-				st.dist["exchange-retried"]++
-				u.close()
-				time.Sleep(50 * time.Millisecond)
-				be.drain()
-				if u, err = dialUser(vaddr, localIP); err != nil {
-					return err
+				for attempt := 0; attempt < 2 && err != nil; attempt++ {
+					st.dist["exchange-retried"]++
+					u.close()
+					time.Sleep(time.Duration(100*(attempt+1)) * time.Millisecond)
+					be.drain()
+					var derr error
+					if u, derr = dialUser(vaddr, localIP); derr != nil {
+						return derr
+					}
+					got, err = u.do(rg.req, 30*time.Second)
 				}
-				got, err = u.do(rg.req, 30*time.Second)
 			}
 			if err != nil {
 				st.fail("impl:sys-exchange-failed", fmt.Sprintf("%s: %v (%s %s)", sp.name, err, rg.req.method, rg.req.target), rg.req.target)
@@ -368,7 +371,7 @@ func driveSys(cfg *hx.RunCfg) error {
 				for _, a := range answered {
 					lost = lost || a == "false"
 				}
-				if lost && !sp.comp && attempt == 0 {
+				if lost && (!sp.comp || answered[0] == "false") && attempt == 0 {
 					cases, st.impl = cases[:savedCases], st.impl[:savedImpl]
 					st.dist["keepalive-connection-repeated"]++
 					continue
@@ -607,11 +610,16 @@ func driveSys(cfg *hx.RunCfg) error {
 		}
 	}
 
+	qcases, err := quicCases(g, st)
+	if err != nil {
+		return err
+	}
+	cases = append(cases, qcases...)
 	cf := &hx.CaseFile{
 		Imports: "From FRP Require Import Corr.C02.\nOpen Scope Z_scope.\n",
 		Typ:     "case",
 		Cases:   cases,
-		Tail: "Definition M := Eval vm_compute in mismatches check_case cases.\nPrint M.\n" +
+		Tail: "Definition M := Eval vm_compute in mismatches check_case cases.\nPrint M.\n" + counter("NQUIC", "is_quic") +
 			counter("NSYSFWD", "is_fwd") + counter("NSYSCHAIN", "is_chain") + counter("NSYSHS2H", "(is_plug HrHS2H)") + counter("NSYSHS2HS", "(is_plug HrHS2HS)") +
 			counter("NSYSERR504", "is_err504") + counter("NSYSERR404", "is_err404") + counter("NUPGRADE", "(is_tunnel 1)") + counter("NCONNECT", "(is_tunnel 2)") +
 			counter("NOVERLAP", "is_overlap") + counter("NBIGHEAD", "is_bighead") + counter("NLIMITED", "is_limited") + counter("NKEEPPLAIN", "(is_keep false)") + counter("NKEEPCOMP", "(is_keep true)") + counter("NKEEPLOST", "keep_lost"),
@@ -746,4 +754,71 @@ collect:
 			len(body), k, aWhat, bOK, k, bWhat, bodyID(aSeen), bodyID(body), el.Milliseconds())
 	}
 	return cs, what
+}
+
+// quicCases: a second frps/frpc pair whose tunnel runs over quic (transport.protocol = quic).  The backend
+// sends a large close-delimited answer and closes right behind it: frpc's Join then closes the quic stream
+// while most of the answer is still on its way; everything written must still arrive.
+func quicCases(g *hx.Gen, st *fwdStats) ([]string, error) {
+	const qAddr = "127.0.2.20"
+	httpPort := hx.FreePort(qAddr)
+	quicPort := hx.FreeUDPPort(qAddr)
+	s, err := hx.StartServer(qAddr, func(c *v1.ServerConfig) {
+		c.VhostHTTPPort, c.QUICBindPort = httpPort, quicPort
+	})
+	if err != nil {
+		return nil, err
+	}
+	defer s.Close()
+	be := newBackends()
+	defer be.close()
+	ba, err := be.add(c02Addr, 1)
+	if err != nil {
+		return nil, err
+	}
+	p := &v1.HTTPProxyConfig{}
+	p.Name, p.Type = "qweb", "http"
+	p.CustomDomains = []string{"q1.c02.test"}
+	p.LocalIP, p.LocalPort = hostPort(ba)
+	c, err := s.StartClient([]v1.ProxyConfigurer{p}, nil, func(cc *v1.ClientCommonConfig) {
+		cc.Transport.Protocol = "quic"
+		cc.ServerPort = quicPort
+	})
+	if err != nil {
+		return nil, err
+	}
+	defer c.Close()
+	if !c.WaitProxyRunning("qweb", 5*time.Second) {
+		return nil, fmt.Errorf("proxy qweb over quic did not start")
+	}
+	vaddr := net.JoinHostPort(qAddr, fmt.Sprint(httpPort))
+	var cases []string
+	for rep := 0; rep < 4; rep++ {
+		body := g.Bytes((1 << 20) + g.Intn(2<<20))
+		framing := "close"
+		if rep == 3 {
+			framing = "cl"
+		}
+		be.script(&scripted{status: 200, framing: framing, body: body, hdrs: []hdr{{"Content-Type", "application/octet-stream"}}})
+		be.drain()
+		u, err := dialUser(vaddr, fmt.Sprintf("127.0.2.%d", 30+g.Intn(200)))
+		if err != nil {
+			return nil, err
+		}
+		got, err := u.do(simpleGet("q1.c02.test", fmt.Sprintf("/big-%d", rep)), 20*time.Second)
+		u.close()
+		status := 0
+		var recv []byte
+		if got != nil {
+			status, recv = got.status, got.body
+		}
+		cs := fmt.Sprintf("CQuic %d %d %s %s", len(body), status, hx.HxS(bodyID(body)), hx.HxS(bodyID(recv)))
+		cases = append(cases, cs)
+		st.dist["quic:large-answer:"+framing]++
+		if err != nil || status != 200 || bodyID(recv) != bodyID(body) {
+			st.fail("impl:quic-answer-truncated", fmt.Sprintf("transport.protocol=quic, http proxy, a %d-byte %s-framed answer after which the backend closes: status %d, %d bytes arrived (%v)",
+				len(body), framing, status, len(recv), err), cs)
+		}
+	}
+	return cases, nil
 }
